@@ -1,4 +1,5 @@
 import TarpcModel.Lemmas.ClientFlowTransport
+import TarpcModel.Lemmas.ClientExpire
 /-
 No spin (C14, client): with the fixed `ensure_writeable` a dispatch poll emits `Obs.spin` only if `run`'s
 fuel runs out, and every iteration of `run` that loops consumes an inbound item, a queued request, a queued
@@ -24,6 +25,11 @@ theorem insert_len {q q' : DelayQ} {now timeout val : Nat} {r : InsertRes} {w : 
     · simp only [hc, ↓reduceIte] at h
       split at h <;> split at h <;> cases h <;>
         (simp only [len, List.length_append, List.length_cons, List.length_nil]; omega)
+
+/-- projection form (no `rfl` between `q.insert …` and its components: the kernel would evaluate the insert) -/
+theorem insert_len' (q : DelayQ) (now timeout val : Nat) : (q.insert now timeout val).1.len ≤ q.len + 1 := by
+  rcases h : q.insert now timeout val with ⟨q', r, w⟩
+  exact insert_len h
 
 theorem remove_len {q q' : DelayQ} {key : Nat} {w : Bool} (h : q.remove key = some (q', w)) : q'.len ≤ q.len := by
   unfold DelayQ.remove at h
@@ -356,28 +362,77 @@ theorem insertRequest_sizes {s s' : St} {now : Nat} {r : DReq} (h : insertReques
       · exact ⟨by simp, by simp, by rw [wakeDispatch_timers]; exact DelayQ.insert_len hq⟩
       · exact ⟨rfl, rfl, DelayQ.insert_len hq⟩
 
+theorem rearmWith_sizes (s : St) (q : DelayQ) (id t : Nat) (r : DelayQ × DelayQ.InsertRes × Bool)
+    (hr : r.1.len ≤ q.len + 1) (hq : q.len + 1 ≤ s.timers.len) :
+    (rearmWith s id t r).st.pq = s.pq ∧ (rearmWith s id t r).st.cq = s.cq ∧
+    (rearmWith s id t r).st.timers.len ≤ s.timers.len ∧ (∀ s', rearmWith s id t r ≠ .done s' true) := by
+  unfold rearmWith; split
+  · exact ⟨rfl, rfl, Nat.le_refl _, by simp⟩
+  · refine ⟨?_, ?_, ?_, by simp⟩
+    · show (if _ then _ else _ : St).pq = _; split
+      · simp
+      · rfl
+    · show (if _ then _ else _ : St).cq = _; split
+      · simp
+      · rfl
+    · show (if _ then _ else _ : St).timers.len ≤ _; split
+      · rw [wakeDispatch_timers]; exact Nat.le_trans hr hq
+      · exact Nat.le_trans hr hq
+
+theorem expireWith_sizes (s : St) (now : Nat) (r : DelayQ × DelayQ.PollRes)
+    (h1 : r.1.len ≤ s.timers.len) (h2 : ∀ e, r.2 = .expired e → r.1.len + 1 ≤ s.timers.len) :
+    (expireWith s now r).st.pq = s.pq ∧ (expireWith s now r).st.cq = s.cq ∧
+    (expireWith s now r).st.timers.len ≤ s.timers.len ∧
+    (∀ s', expireWith s now r = .done s' true → s'.timers.len + 1 ≤ s.timers.len) := by
+  unfold expireWith; split
+  · rename_i q e
+    have hq := h2 e rfl
+    simp only at hq
+    split
+    · rename_i en _
+      split
+      · have hi : (q.insert now (clampTimeout en.remainder) e.val).1.len ≤ q.len + 1 := DelayQ.insert_len' _ _ _ _
+        obtain ⟨a1, a2, a3, a4⟩ := rearmWith_sizes s q e.val (clampTimeout en.remainder) _ hi hq
+        exact ⟨a1, a2, a3, fun s' h => absurd h (a4 s')⟩
+      · have f := osSend_frameQ { s with timers := q, inflight := s.inflight.filter (·.id != e.val) } en.cid .deadline
+        refine ⟨f.pq, f.cq, ?_, ?_⟩
+        · show (osSend _ _ _).timers.len ≤ _; rw [f.timers]; show q.len ≤ _; omega
+        · intro s' h; cases h; rw [f.timers]; exact hq
+    · refine ⟨rfl, rfl, ?_, ?_⟩
+      · show q.len ≤ _; omega
+      · intro s' h; cases h; exact hq
+  · exact ⟨rfl, rfl, h1, by simp⟩
+
+theorem expireStep_sizes (s : St) (now : Nat) :
+    (expireStep s now).st.pq = s.pq ∧ (expireStep s now).st.cq = s.cq ∧
+    (expireStep s now).st.timers.len ≤ s.timers.len ∧
+    (∀ s', expireStep s now = .done s' true → s'.timers.len + 1 ≤ s.timers.len) :=
+  expireWith_sizes s now _ (DelayQ.pollExpired_len s.timers now).1 (DelayQ.pollExpired_len s.timers now).2
+
+theorem pollExpiredLoop_sizes (fuel : Nat) (s : St) (now : Nat) :
+    (pollExpiredLoop fuel s now).1.pq = s.pq ∧ (pollExpiredLoop fuel s now).1.cq = s.cq ∧
+    (pollExpiredLoop fuel s now).1.timers.len ≤ s.timers.len ∧
+    ((pollExpiredLoop fuel s now).2 = true → (pollExpiredLoop fuel s now).1.timers.len + 1 ≤ s.timers.len) := by
+  induction fuel generalizing s with
+  | zero => exact ⟨rfl, rfl, Nat.le_refl _, by simp [pollExpiredLoop]⟩
+  | succ fuel ih =>
+    obtain ⟨a1, a2, a3, a4⟩ := expireStep_sizes s now
+    unfold pollExpiredLoop; split <;> rename_i heq <;> rw [heq] at a1 a2 a3
+    · rename_i s1
+      obtain ⟨i1, i2, i3, i4⟩ := ih s1
+      simp only [ExpStep.st] at a1 a2 a3
+      exact ⟨i1.trans a1, i2.trans a2, Nat.le_trans i3 a3, fun h => Nat.le_trans (i4 h) a3⟩
+    · rename_i s1 b
+      simp only [ExpStep.st] at a1 a2 a3
+      refine ⟨a1, a2, a3, fun h => ?_⟩
+      simp only at h; subst h
+      exact a4 s1 heq
+
 theorem pollExpired_sizes (s : St) (now : Nat) :
     (pollExpired s now).1.pq = s.pq ∧ (pollExpired s now).1.cq = s.cq ∧
     (pollExpired s now).1.timers.len ≤ s.timers.len ∧
-    ((pollExpired s now).2 = true → (pollExpired s now).1.timers.len + 1 ≤ s.timers.len) := by
-  have hl := DelayQ.pollExpired_len s.timers now
-  unfold pollExpired
-  rcases hq : s.timers.pollExpired now with ⟨q, r⟩
-  rw [hq] at hl
-  simp only at hl
-  cases r with
-  | expired e =>
-    have hs := hl.2 e rfl
-    simp only
-    split
-    · rename_i en _
-      have h2 := osSend_frameQ { s with timers := q, inflight := s.inflight.filter (·.id != e.val) } en.cid .deadline
-      have e1 : (osSend { s with timers := q, inflight := s.inflight.filter (·.id != e.val) } en.cid .deadline).timers = q :=
-        h2.timers
-      exact ⟨h2.pq, h2.cq, by rw [e1]; omega, fun _ => by rw [e1]; exact hs⟩
-    · exact ⟨rfl, rfl, by show q.len ≤ _; omega, fun _ => hs⟩
-  | pending => exact ⟨rfl, rfl, hl.1, by simp⟩
-  | none => exact ⟨rfl, rfl, hl.1, by simp⟩
+    ((pollExpired s now).2 = true → (pollExpired s now).1.timers.len + 1 ≤ s.timers.len) :=
+  pollExpiredLoop_sizes _ s now
 
 /-! #### the transport calls -/
 
@@ -551,7 +606,7 @@ theorem pollExpired_mstep (s : St) (now : Nat) :
 
 theorem pumpWrite_mstep (s : St) (now : Nat) (hel : s.ensureLoop = false) :
     MStep s (pumpWrite s now).1 0 ∧ ((pumpWrite s now).2 = .some () → MStep s (pumpWrite s now).1 1) := by
-  refine pumpWrite_cases (motive := fun p => MStep s p.1 0 ∧ (p.2 = .some () → MStep s p.1 1)) s now ?_ ?_ ?_ ?_ ?_
+  refine pumpWrite_cases (motive := fun p => MStep s p.1 0 ∧ (p.2 = .some () → MStep s p.1 1)) s now ?_ ?_ ?_ ?_ ?_ ?_
   · intro s1 r1 h1 _
     have f1 := pollWriteRequest_mstep s now hel; rw [h1] at f1; try dsimp only at f1; exact f1
   · intro s1 r1 s2 r2 h1 _ h2 _
@@ -564,6 +619,11 @@ theorem pumpWrite_mstep (s : St) (now : Nat) (hel : s.ensureLoop = false) :
     have f3 := pollExpired_mstep s2 now; rw [h3] at f3; try dsimp only at f3
     have := (f1.1.trans f2.1).trans (f3.2 rfl)
     exact ⟨this.weaken (by omega), fun _ => this.weaken (by omega)⟩
+  · intro s1 r1 s2 r2 s3 h1 _ h2 _ h3 _
+    have f1 := pollWriteRequest_mstep s now hel; rw [h1] at f1; try dsimp only at f1
+    have f2 := pollWriteCancel_mstep s1 (f1.1.el.trans hel); rw [h2] at f2; try dsimp only at f2
+    have f3 := pollExpired_mstep s2 now; rw [h3] at f3; try dsimp only at f3
+    exact ⟨(f1.1.trans f2.1).trans f3.1, by simp⟩
   · intro s1 s2 s3 s4 r4 h1 h2 h3 h4
     have f1 := pollWriteRequest_mstep s now hel; rw [h1] at f1; try dsimp only at f1
     have f2 := pollWriteCancel_mstep s1 (f1.1.el.trans hel); rw [h2] at f2; try dsimp only at f2
